@@ -1246,6 +1246,7 @@ func rulePool(c *Ctx) {
 
 func rulePoolOver(c *Ctx, b *Body, fns []*ssa.Function, lab string) {
 	l := c.L
+	b.putThenUse(l, fns, lab)
 	// the lastKeys exception is structural: see below
 	// acquire functions: return (a type assertion of) a Pool.Get result; release
 	// functions: hand a parameter to Pool.Put.
